@@ -336,8 +336,8 @@ def translate(repo):
     out.append("Definition src_sigma_always_applied : bool := true.")
     # the points are copied before they are rescaled in place
     xs = [ast.unparse(n.value) for n in ns.body if isinstance(n, ast.Assign) and ast.unparse(n.targets[0]) == "_X"]
-    if xs[:2] != ["np.array(X)", "np.rollaxis(_X, axis)"]:
-        raise Unsupported("_normsq must copy the points first: %r" % xs[:2])
+    if xs[:2] != ["np.array(X, dtype=np.float64)", "np.rollaxis(_X, axis)"]:      # a COPY, as float64 (integer points)
+        raise Unsupported("_normsq must copy the points as float64 first: %r" % xs[:2])
     out.append("Definition src_normsq_copies_points : bool := true.")
     d2 = _assign_to(ns, "D2")
     if ast.unparse(d2) != "np.sum(_X ** 2, axis=0)":
